@@ -1,4 +1,10 @@
-use std::{collections::HashSet, rc::Rc, vec};
+use std::{
+    collections::{HashMap, HashSet},
+    rc::Rc,
+    vec,
+};
+
+use uuid::Uuid;
 
 use crate::{
     cfg::{Cfg, CfgNode, Function, RegisterSet},
@@ -9,123 +15,112 @@ use crate::{
     passes::{CfgError, DiagnosticLocation, GenerationPass},
 };
 
-struct MarkData {
-    pub found: RegisterSet,
-    pub instructions: Vec<Rc<CfgNode>>,
-    pub returns: Rc<CfgNode>,
-}
-
 pub struct FunctionMarkupPass;
 
 impl FunctionMarkupPass {
-    fn mark_reachable(
+    /// Decide, for every return that some function reaches, which return is
+    /// the exit it is merged into.
+    ///
+    /// The functions are taken in program order. A function ends in the first
+    /// (in program order) exit that an earlier function has already chosen
+    /// among the returns it reaches, or else in its own first return. All
+    /// returns it reaches end there too - including the exits of other
+    /// functions it happens to join, and with them everything that was
+    /// merged into those before. Nothing is rewritten yet, so that no
+    /// function's instructions are collected from a half-rewritten graph.
+    fn choose_exits(
         cfg: &Cfg,
-        entry: &Rc<CfgNode>,
-        func: &Rc<Function>,
-    ) -> Result<MarkData, Box<CfgError>> {
-        let mut defs = RegisterSet::new(); // Registers this function writes to
-        let mut instructions = vec![];
-
-        // Collect all nodes reachable from the entry point first, then visit
-        // them in program order. The reachable *set* does not depend on the
-        // traversal order, but the choice of the exit (the first return that
-        // is met) and the rewriting of the other returns do, and the
-        // traversal follows hash-set iteration order.
-        let reachable = cfg
-            .iter_nexts(Rc::clone(entry))
-            .map(|n| n.id())
-            .collect::<HashSet<_>>();
-        let ordered = cfg
+        entries: &[Rc<CfgNode>],
+    ) -> Result<HashMap<Uuid, Rc<CfgNode>>, Box<CfgError>> {
+        let position = cfg
             .iter()
-            .filter(|n| reachable.contains(&n.id()))
-            .collect::<Vec<_>>();
+            .enumerate()
+            .map(|(i, n)| (n.id(), i))
+            .collect::<HashMap<_, _>>();
+        let mut exit_of: HashMap<Uuid, Rc<CfgNode>> = HashMap::new();
 
-        // A return that already is the exit of a function marked earlier
-        // (functions can share code) has to stay a return: rewriting it into
-        // a jump would leave that function with an exit that is not a return.
-        // If this function reaches such a return, it becomes its exit too.
-        let established = |n: &Rc<CfgNode>| {
-            n.is_return()
-                && cfg
-                    .functions()
-                    .values()
-                    .any(|f| !Rc::ptr_eq(f, func) && Rc::ptr_eq(&f.exit(), n))
-        };
-        // Return instructions in this function: the exit once it is known
-        let mut returns = ordered.iter().find(|n| established(n)).cloned();
-
-        for node in ordered {
-            // Mark the node as being a part of the given function
-            instructions.push(Rc::clone(&node));
-            node.insert_function(Rc::clone(func));
-
-            // Collect any registers written to by the node
-            if let Some(dest) = node.writes_to() {
-                defs |= dest.get_cloned();
+        for entry in entries {
+            let reachable = cfg
+                .iter_nexts(Rc::clone(entry))
+                .map(|n| n.id())
+                .collect::<HashSet<_>>();
+            let returns = cfg
+                .iter()
+                .filter(|n| reachable.contains(&n.id()) && n.is_return())
+                .collect::<Vec<_>>();
+            // TODO: Handle functions with no return statements
+            if returns.is_empty() {
+                return Err(Box::new(CfgError::UnexpectedError));
             }
 
-            // Collect return instructions
-            if node.is_return() {
-                let is_exit = returns.as_ref().is_some_and(|r| Rc::ptr_eq(r, &node));
-                if is_exit || (returns.is_some() && established(&node)) {
-                    // This is the exit, or the exit of another function
-                    // that must not be rewritten.
-                }
-                // Set the newly found return to be an jump to the previously
-                // found return.
-                else if let Some(ref prev_ret) = returns {
-                    let found_ret = Rc::clone(&node);
+            // Exits chosen by earlier functions that this one runs into
+            let mut joined = returns
+                .iter()
+                .filter_map(|r| exit_of.get(&r.id()).cloned())
+                .collect::<Vec<_>>();
+            joined.sort_by_key(|e| position.get(&e.id()).copied());
+            joined.dedup_by(|a, b| Rc::ptr_eq(a, b));
+            let exit = joined
+                .first()
+                .cloned()
+                .unwrap_or_else(|| Rc::clone(&returns[0]));
 
-                    // Fix the prevs & nexts of both returns
-                    found_ret.clear_nexts();
-                    found_ret.insert_next(Rc::clone(prev_ret));
-                    prev_ret.insert_prev(Rc::clone(&found_ret));
-
-                    // Convert the found return into a jump
-                    let info = Token::new(
-                        TokenType::Symbol("return".to_string()),
-                        found_ret.raw_text(),
-                        found_ret.range(),
-                        found_ret.file(),
-                    );
-
-                    let inst = With::new(JumpLinkType::Jal, info.clone());
-                    let rd = With::new(Register::X0, info.clone());
-                    let name = With::new(LabelString::new("__return__"), info.clone());
-                    let new_node =
-                        ParserNode::new_jump_link(inst, rd, name, prev_ret.node().token().clone());
-                    #[allow(unused_must_use)]
-                    found_ret.set_node(new_node);
-                }
-                // If this is the first return node, save it
-                else {
-                    returns = Some(Rc::clone(&node));
+            for chosen in exit_of.values_mut() {
+                if joined.iter().any(|e| Rc::ptr_eq(e, chosen)) {
+                    *chosen = Rc::clone(&exit);
                 }
             }
+            for ret in returns {
+                exit_of.insert(ret.id(), Rc::clone(&exit));
+            }
         }
+        Ok(exit_of)
+    }
 
-        if let Some(ret) = returns {
-            Ok(MarkData {
-                found: defs,
-                instructions,
-                returns: ret,
-            })
-        }
-        // TODO: Handle functions with no return statements
-        else {
-            Err(Box::new(CfgError::UnexpectedError))
-        }
+    /// Turn a return into a jump to the exit it is merged into.
+    fn merge_into_exit(found_ret: &Rc<CfgNode>, exit: &Rc<CfgNode>) {
+        // Fix the prevs & nexts of both returns
+        found_ret.clear_nexts();
+        found_ret.insert_next(Rc::clone(exit));
+        exit.insert_prev(Rc::clone(found_ret));
+
+        // Convert the found return into a jump
+        let info = Token::new(
+            TokenType::Symbol("return".to_string()),
+            found_ret.raw_text(),
+            found_ret.range(),
+            found_ret.file(),
+        );
+
+        let inst = With::new(JumpLinkType::Jal, info.clone());
+        let rd = With::new(Register::X0, info.clone());
+        let name = With::new(LabelString::new("__return__"), info.clone());
+        let new_node = ParserNode::new_jump_link(inst, rd, name, exit.node().token().clone());
+        #[allow(unused_must_use)]
+        found_ret.set_node(new_node);
     }
 }
 
 impl GenerationPass for FunctionMarkupPass {
     fn run(cfg: &mut Cfg) -> Result<(), Box<CfgError>> {
-        for entry in &cfg.clone() {
-            // Skip all nodes that are not entry points
-            if !entry.is_function_entry() {
-                continue;
-            }
+        let entries = cfg
+            .iter()
+            .filter(|n| n.is_function_entry())
+            .collect::<Vec<_>>();
 
+        // Every function gets one exit: all other returns it reaches become
+        // jumps to it. Functions can share code, so this is settled for all
+        // of them before any is rewritten.
+        let exit_of = Self::choose_exits(cfg, &entries)?;
+        for node in &cfg.clone() {
+            if let Some(exit) = exit_of.get(&node.id()) {
+                if !Rc::ptr_eq(exit, &node) {
+                    Self::merge_into_exit(&node, exit);
+                }
+            }
+        }
+
+        for entry in entries {
             // Get the labels for the entry block
             let labels = entry.labels().iter().cloned().collect::<Vec<_>>();
 
@@ -141,21 +136,44 @@ impl GenerationPass for FunctionMarkupPass {
                 cfg.insert_function(label.clone(), Rc::clone(&func));
             }
 
-            // Mark all CFG nodes that are reachable from this entry point
-            // FIXME: What to do if there is more than one return
-            match Self::mark_reachable(cfg, &entry, &Rc::clone(&func)) {
-                Ok(data) => {
-                    #[allow(unused_must_use)]
-                    func.set_defs(data.found);
-                    #[allow(unused_must_use)]
-                    func.set_nodes(data.instructions);
-                    #[allow(unused_must_use)]
-                    func.set_exit(data.returns);
+            // The function is made of all nodes reachable from its entry
+            // point, listed in program order (the traversal itself follows
+            // hash-set iteration order).
+            let reachable = cfg
+                .iter_nexts(Rc::clone(&entry))
+                .map(|n| n.id())
+                .collect::<HashSet<_>>();
+            let instructions = cfg
+                .iter()
+                .filter(|n| reachable.contains(&n.id()))
+                .collect::<Vec<_>>();
+
+            let mut defs = RegisterSet::new(); // Registers this function writes to
+            let mut exit = None;
+            for node in &instructions {
+                // Mark the node as being a part of the given function
+                node.insert_function(Rc::clone(&func));
+
+                // Collect any registers written to by the node
+                if let Some(dest) = node.writes_to() {
+                    defs |= dest.get_cloned();
                 }
-                Err(e) => {
-                    return Err(e);
+
+                // The one return that is left is the exit
+                if node.is_return() && exit.is_none() {
+                    exit = Some(Rc::clone(node));
                 }
             }
+            let Some(exit) = exit else {
+                return Err(Box::new(CfgError::UnexpectedError));
+            };
+
+            #[allow(unused_must_use)]
+            func.set_defs(defs);
+            #[allow(unused_must_use)]
+            func.set_nodes(instructions);
+            #[allow(unused_must_use)]
+            func.set_exit(exit);
         }
 
         Ok(())
